@@ -215,6 +215,9 @@ class CallMixin:
         if is_dict(obj.kind):
             yield from self.dict_method(obj, name, args, kw, st, node)
             return
+        if is_obj(obj.kind) and name == "map" and obj.kind.target.cls in self.reg.maplike:
+            yield from self.pool_map(args, kw, st, node)
+            return
         c = self.method_contract(obj, name)
         if c is not None:
             if is_obj(obj.kind):
@@ -227,6 +230,33 @@ class CallMixin:
                 yield from self.inline_call(fd[1], fd[0], [obj] + args, kw, st, node)
                 return
         raise Unsupported(f"method {name} of {obj.kind} has no contract", node)
+
+    def pool_map(self, args, kw, st, node):
+        """pool.map(f, xs): assumed to be [f(x) for x in xs] -- in order, f applied once per element.  Executed
+        as a loop whose invariant the unit's contract supplies under the key 'map<n>'."""
+        self.note_assumption("pool.map(f, xs) == [f(x) for x in xs]: order-preserving, f applied exactly once per element (assumed contract of pathos ProcessingPool.map)")
+        self.externals_used.add("pathos.ProcessingPool.map")
+        n = self.map_counter = getattr(self, "map_counter", -1) + 1
+        cc = self.reg.contracts.get(self.cur_qual)
+        spec = cc.loops.get(f"map{n}") if cc is not None else None
+        if spec is None:
+            raise Unsupported(f"pool.map #{n} in {self.cur_qual} has no invariant (loops['map{n}'])", node)
+        tree = ast.parse("for __x in __xs:\n    __res.append(__f(__x))").body[0]
+        ast.fix_missing_locations(tree)
+        self._synthetic_keep.append(tree)
+        self.synthetic_loops[id(tree)] = (f"map{n}", spec)
+        st.env["__f"], st.env["__xs"] = args[0], args[1]
+        st.env["__res"] = self.new_list(st, None)
+        if cc is not None and "__res" in cc.locals:
+            st.env["__res"] = self.coerce_arg(st.env["__res"], parse_kind(cc.locals["__res"], self.reg.opaque), st, "pool.map result")
+        outs = list(self.st_For(tree, st))
+        for kind, val, s in outs:
+            if kind != "next":
+                raise Unsupported("non-local exit from pool.map", node)
+            r = s.env.pop("__res")
+            for nm in ("__f", "__xs", "__x"):
+                s.env.pop(nm, None)
+            yield r, s
 
     def list_method(self, lst: V, name, args, kw, st, node):
         if name == "append":
@@ -609,7 +639,7 @@ class CallMixin:
                 # t0 + (position of k in the key list) -- injective on the domain, quantifier-free
                 skl = self.dkeys(st, v)
                 n = self.llen(st, skl)
-                karr = self.H.el_arr(st, k.sort())[skl.term]
+                karr = self.larr(st, skl)
                 t0 = st.top
                 st.top = t0 + n
                 M = self.H.map_arr(st, k.sort(), vk.sort())[v.term]
@@ -633,15 +663,58 @@ class CallMixin:
         da = self.H.dom_arr(st, k.sort())
         st.heap[dn] = z3.Store(da, dst.term, da[src.term])
         skl = self.dkeys(st, src)
-        dkl = V(Ref(ListT(k)), self.H.dkeys_arr(st)[dst.term])
-        st.heap["len"] = z3.Store(self.H.len_arr(st), dkl.term, self.llen(st, skl))
-        en = self.H.n_el(k.sort())
-        ea = self.H.el_arr(st, k.sort())
-        st.heap[en] = z3.Store(ea, dkl.term, ea[skl.term])
+        st.heap[self.H.n_dklen(k.sort())] = z3.Store(self.H.dklen_arr(st, k.sort()), dst.term, self.llen(st, skl))
+        en = self.H.n_dkel(k.sort())
+        st.heap[en] = z3.Store(self.H.dkel_arr(st, k.sort()), dst.term, self.larr(st, skl))
         # the copy's key positions coincide with the source's
         pos = z3.Function(f"kpos_{k.name}", I, k.sort(), I)
         kk = z3.Const("dcs_k", k.sort())
         st.assume(z3.ForAll([kk], pos(dst.term, kk) == pos(src.term, kk), patterns=[pos(dst.term, kk)]))
+
+    def bi_fitval(self, args, kw, st, node):
+        """spec: the value the user's fitness function returns for a phenotype (a function of both)"""
+        f = z3.Function("fitval", I, I, z3.RealSort())
+        return V(REAL, f(args[0].term, args[1].term))
+
+    def bi_emptydict(self, args, kw, st, node):
+        d = args[0]
+        k, _ = self.dict_kinds(d)
+        return V(BOOL, self.sel(st, self.H.dom_arr(st, k.sort()), d.term) == z3.K(k.sort(), z3.BoolVal(False)))
+
+    def bi_dicts_monotone(self, args, kw, st, node):
+        """two-state spec: every dict of the sample's kind only grows -- old keys keep their position and value"""
+        old = st.ghost.get("__old__")
+        if old is None:
+            raise Unsupported("dicts_monotone outside a two-state clause", node)
+        k, vk = self.dict_kinds(args[0])
+        a = z3.Int("dm_a")
+        kk = z3.Const("dm_k", k.sort())
+        i = z3.Int("dm_i")
+        dom0, dom1 = self.H.dom_arr(old, k.sort()), self.H.dom_arr(st, k.sort())
+        map0, map1 = self.H.map_arr(old, k.sort(), vk.sort()), self.H.map_arr(st, k.sort(), vk.sort())
+        ln0, ln1 = self.H.dklen_arr(old, k.sort()), self.H.dklen_arr(st, k.sort())
+        ke0, ke1 = self.H.dkel_arr(old, k.sort()), self.H.dkel_arr(st, k.sort())
+        live = z3.And(a >= 1, a < old.top)  # objects that existed in the old state
+        return V(
+            BOOL,
+            z3.And(
+                self.forall_p([a, kk], z3.Implies(z3.And(live, dom0[a][kk]), z3.And(dom1[a][kk], map1[a][kk] == map0[a][kk])), [dom1[a][kk], map1[a][kk]]),
+                self.forall_p([a], z3.Implies(live, ln1[a] >= ln0[a]), [ln1[a]]),
+                self.forall_p([a, i], z3.Implies(z3.And(live, 0 <= i, i < ln0[a]), ke1[a][i] == ke0[a][i]), [ke1[a][i]]),
+            ),
+        )
+
+    def bi_field_sticky(self, args, kw, st, node):
+        """two-state spec: field f (given by name) of every object keeps its value once it is not None"""
+        old = st.ghost.get("__old__")
+        if old is None:
+            raise Unsupported("field_sticky outside a two-state clause", node)
+        obj, name = args
+        f = self.const_str(name)
+        fk = self.field_kind(obj.kind.target.cls, f)
+        a = z3.Int("fs_a")
+        f0, f1 = self.H.fld_arr(old, f, fk.sort()), self.H.fld_arr(st, f, fk.sort())
+        return V(BOOL, self.forall_p([a], z3.Implies(z3.And(a >= 1, a < old.top, f0[a] != 0), f1[a] == f0[a]), [f1[a]]))
 
     def bi_keysof(self, args, kw, st, node):
         """spec: keysof(d) = the dict's key list in insertion order"""
